@@ -117,7 +117,7 @@ def run(F, R):
     # P16: a blocking helper unshares its buffers against its own chain: the token it pops is the one its add returned, never
     # whatever the used ring shows next (another request's device addresses would be paired with these buffers) - C03.E8
     from .C03 import e8_helper_token
-    e8_helper_token(F, R, M, _roles, rule='P16')
+    guard(R, 'P16', 'helper-token', lambda: e8_helper_token(F, R, M, _roles, rule='P16'))
     # P17: a completion is consumed only together with the release (unshare, copy-back) of its chain: a poll refused with a wrong
     # token or nothing ready advances nothing (C03.E1 / E2)
     from .C03 import pop_rule
